@@ -32,6 +32,9 @@ type Op struct {
 	// reopen: which index files to delete. Mode: "none","all","hash","hints","last","subset"
 	Mask    string `json:"mask,omitempty"`
 	MaskSel uint64 `json:"sel,omitempty"` // bit i set => delete the i-th index file (mode subset)
+	// Race: do not wait for a parked post-rotation flush before the shutdown: the process "exits" (directory image
+	// taken) right after Close returned, and the store is restarted from that image.
+	Race bool `json:"race,omitempty"`
 	// gc
 	Bucket int  `json:"b,omitempty"`
 	Begin  int  `json:"begin,omitempty"`
@@ -45,6 +48,11 @@ const (
 	stLive
 	stDeleted
 )
+
+type prevVal struct {
+	val  []byte
+	flag uint32
+}
 
 // mkey is the model state of one key.
 type mkey struct {
@@ -129,6 +137,10 @@ type histRunner struct {
 	inGrp  []bool
 
 	lastResolved Op
+	prevVals     map[int][]prevVal // colliding keys: every value ever acknowledged (for the C13-merge-stale exclusion)
+	staleOK      map[int]string // key -> id of the known finding that tolerates an older own value
+	excluded     map[string]int
+	collideWrites int
 	reads        map[string]int // residence -> count of checked reads of keys with >=1 overwrite/delete
 	gcPasses     int
 	gcReleased   int64
@@ -140,7 +152,7 @@ type histRunner struct {
 func (r *histRunner) label(l string) { r.labels[l] = true }
 
 func newRunner(h *History, opts runOpts) *histRunner {
-	r := &histRunner{h: h, opts: opts, labels: map[string]bool{}, reads: map[string]int{}, ts: 1000}
+	r := &histRunner{h: h, opts: opts, labels: map[string]bool{}, reads: map[string]int{}, ts: 1000, excluded: map[string]int{}, prevVals: map[int][]prevVal{}, staleOK: map[int]string{}}
 	r.model = make([]*mkey, len(h.Cfg.Keys))
 	for i := range r.model {
 		r.model[i] = &mkey{}
@@ -217,6 +229,23 @@ func (r *histRunner) checkGet(k int, where string) error {
 			return fmt.Errorf("%s: Get(%q) hit in an unserved bucket", where, key)
 		}
 		return nil
+	}
+	if r.staleOK[k] == "C13-gc-nomerge" && (p == nil || p.Ver < 0) && m.State == stLive {
+		// the record of a live colliding key was discarded by a GC pass without merge (same root cause)
+		r.excluded["C13-gc-nomerge"]++
+		return nil
+	}
+	if r.staleOK[k] != "" && p != nil && p.Ver > 0 {
+		// C13-merge-stale: exactly an older acknowledged value of this very key is tolerated
+		cur := m.State == stLive && bytes.Equal(p.Body, m.Val) && p.Flag == m.Flag
+		if !cur {
+			for _, pv := range r.prevVals[k] {
+				if bytes.Equal(pv.val, p.Body) && pv.flag == p.Flag {
+					r.excluded[r.staleOK[k]]++
+					return nil
+				}
+			}
+		}
 	}
 	switch m.State {
 	case stAbsent:
@@ -358,10 +387,31 @@ func (r *histRunner) doSet(op *Op) error {
 	}
 	if r.inGrp[op.K] {
 		// colliding keys: versions are not modelled (the tree slot is shared); every set is a write
+		sibling := r.h.Cfg.CheckVHash && r.siblingSameVhash(op.K, val)
+		if sibling && verifkit.Known("C13-vhash-sibling") {
+			r.excluded["C13-vhash-sibling"]++
+		} else {
+			sibling = false
+		}
+		if r.h.Cfg.CheckVHash && (sibling || (m.State == stLive && verifkit.Vhash(val) == verifkit.Vhash(m.Val))) {
+			// "not really set if vhash is the same": whether the store sees the key's own value hash depends on which
+			// sibling owns the shared tree slot, so both outcomes (no-op, write) are admissible here
+			p, _, err := r.store.Get(newKI(key), false)
+			if err != nil {
+				return fmt.Errorf("Get(%q) after same-vhash set: %v", key, err)
+			}
+			defer freePayload(p)
+			if p != nil && p.Ver > 0 && bytes.Equal(p.Body, val) && p.Flag == op.Flag {
+				*m = mkey{State: stLive, Val: val, Flag: op.Flag, Spec: op.V, Writes: m.Writes + 1}
+			}
+			r.label("vhash_noop_collide")
+			return nil
+		}
 		if m.State != stAbsent {
 			r.label("overwrite")
 		}
 		*m = mkey{State: stLive, Val: val, Flag: op.Flag, Spec: op.V, Writes: m.Writes + 1}
+		r.collideWrites++
 		return nil
 	}
 	old := m.oldVers()
@@ -430,6 +480,27 @@ func (r *histRunner) doSet(op *Op) error {
 	return nil
 }
 
+// siblingSameVhash reports whether a live key colliding with key k holds a value with the same 16-bit value hash.
+func (r *histRunner) siblingSameVhash(k int, val []byte) bool {
+	for _, g := range r.h.Cfg.Groups {
+		in := false
+		for _, x := range g {
+			if x == k {
+				in = true
+			}
+		}
+		if !in {
+			continue
+		}
+		for _, x := range g {
+			if x != k && r.model[x].State == stLive && verifkit.Vhash(r.model[x].Val) == verifkit.Vhash(val) {
+				return true
+			}
+		}
+	}
+	return false
+}
+
 // resolveSet turns the symbolic parts of a set (same value, relative revision) into concrete ones.
 func (r *histRunner) resolveSet(op *Op, m *mkey) *Op {
 	o := *op
@@ -479,6 +550,7 @@ func (r *histRunner) doDelete(op *Op) error {
 		// but an acknowledged delete must delete
 		if err == nil {
 			r.label("delete")
+			r.collideWrites++
 			*m = mkey{State: stDeleted, Writes: m.Writes + 1}
 		} else if err.Error() != "NOT_FOUND" {
 			return fmt.Errorf("delete of colliding key %q returned %v", key, err)
@@ -582,11 +654,33 @@ func (r *histRunner) doDumpHints() error {
 	return nil
 }
 
+// doMerge runs one round of the hint dumper body; the merge it would start in a goroutine (same trigger
+// condition as hintMgr.dumpAndMerge, with the production merge interval of 1) is run synchronously instead.
 func (r *histRunner) doMerge() error {
 	for _, b := range r.store.buckets {
 		if b.State == BUCKET_STAT_READY {
-			b.hints.dumpAndMerge(false)
-			b.hints.Merge(false)
+			h := b.hints
+			h.dumpAndMerge(false) // Conf.MergeInterval is huge: never spawns the goroutine itself
+			if h.state&HintStateMerge == 0 && h.maxChunkID-h.collisions.Chunk > 1 {
+				if verifkit.Known("C13-merge-stale") {
+					// known finding: the merge only sees dumped hint files; a colliding key whose newest record is still
+					// only in a hint buffer gets an older position in the collision table
+					for k, in := range r.inGrp {
+						if !in || r.model[k].State == stAbsent {
+							continue
+						}
+						key := r.h.Cfg.Keys[k]
+						if kb, _ := r.bucketOf(key); kb != b {
+							continue
+						}
+						if it, _, _ := h.getItem(getKeyHash(key), string(key), true); it != nil {
+							r.staleOK[k] = "C13-merge-stale"
+						}
+					}
+				}
+				h.Merge(false)
+				r.label("hint_merge")
+			}
 		}
 	}
 	return nil
@@ -625,12 +719,35 @@ func (r *histRunner) doRotate(op *Op) error {
 
 // doReopen = graceful shutdown, removal of a drawn subset of index files, start.
 func (r *histRunner) doReopen(op *Op) error {
-	if err := hooks.releaseRotFlush(); err != nil {
-		return err
+	raced := false
+	if op.Race && hooks.numParked() > 0 {
+		// graceful shutdown while the flush goroutine spawned at rotation has not run yet
+		closeStore(r.store)
+		img := r.home + "-img"
+		os.RemoveAll(img)
+		if err := verifkit.CopyDir(r.home, img); err != nil {
+			return infraf("copy image: %v", err)
+		}
+		if err := hooks.releaseRotFlush(); err != nil {
+			return err
+		}
+		discardStore(r.store)
+		r.store = nil
+		os.RemoveAll(r.home)
+		if err := os.Rename(img, r.home); err != nil {
+			return infraf("rename image: %v", err)
+		}
+		raced = true
+		r.label("shutdown_before_rotation_flush")
+	} else {
+		if err := hooks.releaseRotFlush(); err != nil {
+			return err
+		}
+		closeStore(r.store)
+		discardStore(r.store)
+		r.store = nil
 	}
-	closeStore(r.store)
-	discardStore(r.store)
-	r.store = nil
+	_ = raced
 	files := indexFiles(r.home)
 	var del []string
 	switch op.Mask {
@@ -749,6 +866,24 @@ func (r *histRunner) doGC(op *Op) error {
 		r.label("gc_range_rejected")
 		return nil
 	}
+	if !op.Merge && verifkit.Known("C13-gc-nomerge") {
+		// known finding: without the merge step GC has no reliable way to tell colliding keys apart
+		for _, g := range r.h.Cfg.Groups {
+			n := 0
+			for _, k := range g {
+				if kb, _ := r.bucketOf(r.h.Cfg.Keys[k]); kb == bkt && r.model[k].State != stAbsent {
+					n++
+				}
+			}
+			if n >= 2 {
+				for _, k := range g {
+					if r.staleOK[k] == "" {
+						r.staleOK[k] = "C13-gc-nomerge"
+					}
+				}
+			}
+		}
+	}
 	var before map[string][]verifkit.ScanRec
 	if r.opts.afterGC != nil {
 		before = r.scanBucket(bkt)
@@ -836,6 +971,7 @@ func (r *histRunner) step(i int, op *Op) error {
 
 // run executes the history against the real store and the model in lock-step.
 func (r *histRunner) run() (err error) {
+	completed := false // false while unwinding a panic: no graceful shutdown then
 	r.home = newHome()
 	defer func() {
 		if !r.opts.keepStore {
@@ -857,7 +993,7 @@ func (r *histRunner) run() (err error) {
 			err = e
 		}
 		if r.store != nil && !r.opts.keepStore {
-			if !r.opts.noCloseAtEnd && err == nil {
+			if !r.opts.noCloseAtEnd && err == nil && completed {
 				closeStore(r.store)
 			}
 			discardStore(r.store)
@@ -866,6 +1002,9 @@ func (r *histRunner) run() (err error) {
 	}()
 	for i := range r.h.Ops {
 		op := &r.h.Ops[i]
+		if traceHooks {
+			fmt.Fprintf(os.Stderr, "OP %d %s\n", i, opString(op, &r.h.Cfg))
+		}
 		if e := r.step(i, op); e != nil {
 			if isInfra(e) {
 				return e
@@ -875,6 +1014,15 @@ func (r *histRunner) run() (err error) {
 		// after every mutating op: the key touched reads back as the model says
 		switch op.Kind {
 		case "set", "delete", "incr", "rotate":
+			if r.inGrp[op.K] {
+				delete(r.staleOK, op.K)
+				if m := r.model[op.K]; m.State == stLive {
+					r.prevVals[op.K] = append(r.prevVals[op.K], prevVal{m.Val, m.Flag})
+				} else if m.State == stDeleted {
+					// a relocated tombstone record read through a slot with a positive version looks like an empty live value
+					r.prevVals[op.K] = append(r.prevVals[op.K], prevVal{nil, 0})
+				}
+			}
 			if e := r.checkGet(op.K, "read-after-write"); e != nil {
 				return fmt.Errorf("op %d %s: %v", i, opString(op, &r.h.Cfg), e)
 			}
@@ -897,6 +1045,7 @@ func (r *histRunner) run() (err error) {
 			return e
 		}
 	}
+	completed = true
 	return nil
 }
 
